@@ -38,7 +38,7 @@ RULE = ("every extents instantiation of the generated table (quick: index types 
         "every assignment 0..3 (0..4) of the dynamic extents: all three constructor routes, default/all-extents/"
         "converting constructors, fwd/rev products, layout_left/right/stride mappings on ALL multi-indices of the "
         "shape (offsets, strides, required_span_size), mdspan/mdarray element addresses, layout_transpose, "
-        "submdspan_extents with every full/index/(first,last) slice choice, operator== of extents and mappings across index types, stride(r) contract, wrap-around cases with huge "
+        "submdspan_extents with every full/index/(first,last) slice choice, pair / tuple / array (first,last) slices whose bounds are run-time values, integral constants or one of each (static_extent of the result type, extent, required_span_size of the mappings over it), submdspan_static_extent of strided_slice types, operator== of extents and mappings across index types, stride(r) contract, wrap-around cases with huge "
         "extents for the unsigned and narrow index types; span: every (Extent, Offset, Count) static form and every "
         "(offset, count) dynamic form for lengths 0..6 incl. contract violations. "
         "non-trivial = distinct case line whose impl outcome is ok or contract")
